@@ -139,9 +139,9 @@ MUTANTS = [
 MUTANTS += [
     {"name": "c06-open-blob-for-write",
      "edits": [("src/cas_manager.rs",
-                """        let file = File::open(&cas_path).map_err(|e| CasManagerError::FileOperation {
+                """        File::open(&cas_path).map_err(|e| CasManagerError::FileOperation {
             operation: CasIoOperation::OpenBuffered,""",
-                """        let file = std::fs::OpenOptions::new().read(true).write(true).open(&cas_path).map_err(|e| CasManagerError::FileOperation {
+                """        std::fs::OpenOptions::new().read(true).write(true).open(&cas_path).map_err(|e| CasManagerError::FileOperation {
             operation: CasIoOperation::OpenBuffered,""")],
      "expect": [("C06", "C06|R1")]},
     {"name": "c06-skip-flush-into-parts",
